@@ -6,7 +6,7 @@
    document that the tree as pinned violates the property (findings D6, D7).
    Residue (trusted, not proved): sync.Mutex gives mutual exclusion; the interleaving granularity is
    the underlying store's Get/Put/Del calls. *)
-From Dht Require Import Base Bep44 Bep44Fault Bep44Proofs Bep44SchedProofs Bep44FaultProofs Sha1.
+From Dht Require Import Base Bep44 Bep44Fault Bep44Rebuild Bep44Proofs Bep44SchedProofs Bep44FaultProofs Bep44RebuildProofs Sha1.
 From DhtGen Require Import Params.
 Local Open Scope Z_scope.
 
@@ -155,6 +155,46 @@ Section C13.
               match sq with Some n => n < it_seq i | None => True end.
   Proof. exact (handle_get_f_value f exp now t sq s g s' bv k sg). Qed.
 
+  (* ---- an underlying Store that rebuilds items (bep44.Store is an exported interface: an implementation
+          may keep bep44.Put records, bencoded blobs or database rows, and can then carry the exported
+          fields only; [skind] says where the time stamp of Wrapper.Put is lost) ----
+     The verdict on a put and the sequence numbers it leaves are those over bep44.Memory, so every
+     statement above about seq and CAS holds over every kind of store. *)
+  Theorem C13_rebuilding_store_put k v now i s t :
+    fst (wrapper_put_k sha1 ed_verify k v now i s) = fst (wrapper_put v now i s) /\
+    seq_of t (snd (wrapper_put_k sha1 ed_verify k v now i s)) = seq_of t (snd (wrapper_put v now i s)).
+  Proof.
+    exact (conj (wrapper_put_k_result sha1 ed_verify k v now i s) (wrapper_put_k_seqs sha1 ed_verify k v now i s t)).
+  Qed.
+
+  (* the step theorem over every kind of store *)
+  Theorem C13_monotone_step_rebuilding k v exp st e t a :
+    seq_of t (s_store st) = Some a ->
+    (exists b, seq_of t (s_store (fst (kseq_step sha1 ed_verify k v exp st e))) = Some b /\ a <= b) \/
+    (seq_of t (s_store (fst (kseq_step sha1 ed_verify k v exp st e))) = None /\
+     (e = EGet t \/ exists sq, e = EWireGet t sq)).
+  Proof. exact (kseq_step_mono sha1 ed_verify k v exp st e t a). Qed.
+
+  (* expiry: whatever a get hands out is the stored item and has not expired by the stamp the store
+     handed back; an item handed back WITHOUT its stamp counts as expired under every expiry a
+     time.Duration can hold, at every time from 1970 on (it is never given a new lease by a read) *)
+  Theorem C13_rebuilding_store_expiry k exp now t s :
+    (forall i s', wrapper_get_k k exp now t s = (Some i, s') ->
+       s' = s /\ now < it_created i + exp /\
+       exists st, store_get t s = Some st /\ (i = st \/ i = forget st)) /\
+    (0 <= now -> exp <= max_duration -> k_forget_get k = true \/ all_forgotten s ->
+       wrapper_get_k k exp now t s = (None, store_del t s)).
+  Proof.
+    exact (conj (wrapper_get_k_served k exp now t s) (wrapper_get_k_forgotten k exp now t s)).
+  Qed.
+
+  (* ... hence over a store that forgets the stamp no get of any history, API or wire, hands out an item:
+     none older than the configured expiry is ever served *)
+  Theorem C13_rebuilding_store_never_serves k v exp evs st :
+    exp <= max_duration -> 0 <= s_clock st -> kinv k (s_store st) -> Forall forward evs ->
+    Forall (fun o => obs_serves o = false) (kseq_obs sha1 ed_verify k v exp evs st).
+  Proof. exact (kseq_run_never_serves sha1 ed_verify k v exp evs st). Qed.
+
   (* ---- concurrency: any number of threads, each a Wrapper.Put or Wrapper.Get with its own clock
           reading; every schedule at store-call granularity ---- *)
   Section Sched.
@@ -288,6 +328,31 @@ Example C13_nonvacuous_faulty :
     [inr (FPut (mkFaults true false false) i3); inl (EPut i6); inr (FGet (mkFaults true false true) wt)] st.
 Proof. vm_compute. repeat split; discriminate. Qed.
 
+(* a record store (stamp lost on write) and a rebuild-on-read store: the put decisions are those of the
+   plain store (accepted, 302), a get right after the put serves nothing and deletes the slot; the same
+   history over a store that keeps the stamp serves the item *)
+Example C13_nonvacuous_rebuilding :
+  let i5 := witem [x69; x35; x65] 0 5 in
+  let i3 := witem [x69; x33; x65] 0 3 in
+  let kw := mkKind true false in
+  let kr := mkKind false true in
+  let st0 := mkSState 7 [] in
+  let after k := fst (kseq_step sha1 ver_all k Repaired 1000 st0 (EPut i5)) in
+  kinv kw (s_store st0) /\ kinv kr (s_store st0) /\
+  seq_of wt (s_store (after kw)) = Some 5 /\ seq_of wt (s_store (after kr)) = Some 5 /\
+  snd (kseq_step sha1 ver_all kw Repaired 1000 (after kw) (EPut i3)) = OPut (PErr 302) /\
+  snd (kseq_step sha1 ver_all kr Repaired 1000 (after kr) (EPut i3)) = OPut (PErr 302) /\
+  kseq_step sha1 ver_all kw Repaired 1000 (after kw) (EGet wt) = (st0, OGet None) /\
+  kseq_step sha1 ver_all kr Repaired 1000 (after kr) (EGet wt) = (st0, OGet None) /\
+  kseq_step sha1 ver_all kr Repaired 1000 (after kr) (EWireGet wt None) = (st0, OWireGet (mkGetReply None None)) /\
+  snd (kseq_step sha1 ver_all plain_kind Repaired 1000 (after plain_kind) (EGet wt)) = OGet (Some (stamp 7 i5)) /\
+  kseq_obs sha1 ver_all kw Repaired 1000 [EPut i5; EAdvance 3; EGet wt; EWireGet wt (Some 1)] st0 =
+    [OPut POk; ONone; OGet None; OWireGet (mkGetReply None None)].
+Proof.
+  cbv zeta. split; [apply kinv_empty; reflexivity|]. split; [apply kinv_empty; reflexivity|].
+  vm_compute. repeat split; discriminate.
+Qed.
+
 (* a complete locked run of two puts and a get; all threads finish *)
 Example C13_nonvacuous_sched :
   let ths := [mkThread (TPut (witem [x69; x35; x65] 0 5)) 10; mkThread (TPut (witem [x69; x33; x65] 0 3)) 10;
@@ -318,6 +383,10 @@ Print Assumptions C13_faulty_store_wire.
 Print Assumptions C13_monotone_step_faulty.
 Print Assumptions C13_monotone_seq_faulty.
 Print Assumptions C13_get_seq_faulty.
+Print Assumptions C13_rebuilding_store_put.
+Print Assumptions C13_monotone_step_rebuilding.
+Print Assumptions C13_rebuilding_store_expiry.
+Print Assumptions C13_rebuilding_store_never_serves.
 Print Assumptions C13_mutual_exclusion.
 Print Assumptions C13_monotone_sched_step.
 Print Assumptions C13_monotone_sched.
